@@ -7,7 +7,9 @@ dict) can reach generated text. The analysis is deliberately simple and conserva
 
 * *unordered expressions* (function-local, flow-insensitive dataflow, closed under nested functions): `set(..)` /
   `frozenset(..)` calls, set displays and comprehensions, dict comprehensions over an unordered iterable,
-  `|  &  -  ^` and `.union/.intersection/.difference/.symmetric_difference/.copy` of unordered operands, names that are
+  `|  &  -  ^` and `.union/.intersection/.difference/.symmetric_difference/.copy` of unordered operands, `|  &  -  ^`
+  with a dict view operand (`a.keys() & b.keys()`, `d.items() - ..`: the result is a `set`), `set.union(..)`-style calls,
+  `dict.fromkeys(<unordered>)`, names that are
   assigned an unordered expression somewhere in the function (or declared `# type: Set[..]`-style by being updated with
   `|=`), attributes whose *name* is assigned an unordered expression anywhere in the scanned files
   (`x.recursive_custom_annotations = annotations`), calls to functions/methods (by bare name) one of whose `return`s
@@ -57,7 +59,7 @@ AMBIENT = {('os', 'listdir'), ('os', 'walk'), ('os', 'scandir'), ('glob', 'glob'
            ('datetime', 'now'), ('datetime', 'today'), ('datetime', 'utcnow'), ('date', 'today'),
            ('os', 'getpid'), ('os', 'getcwd'), ('os', 'urandom'), ('uuid', 'uuid1'), ('uuid', 'uuid4'),
            ('random', '*'), ('tempfile', '*'), ('socket', 'gethostname'), ('getpass', 'getuser'),
-           ('platform', '*')}
+           ('platform', '*'), ('*', 'iterdir'), ('*', 'rglob'), ('*', 'getmtime'), ('*', 'getctime')}
 AMBIENT_BUILTINS = {'id', 'hash', 'vars', 'globals', 'locals'}
 EMIT_PREFIXES = ('emit', 'generate_multiline_list', 'output_to_relative_path')
 
@@ -83,6 +85,12 @@ def _callee(call):
     if isinstance(f, ast.Attribute):
         return f.attr
     return None
+
+
+def _is_dict_view(e):
+    """`<expr>.keys()` / `.items()` (also the Python 2 spellings): set-like views whose `& | - ^` build a `set`"""
+    return (isinstance(e, ast.Call) and isinstance(e.func, ast.Attribute) and not e.args
+            and e.func.attr in ('keys', 'items', 'viewkeys', 'viewitems'))
 
 
 def _src(node, cap=90):
@@ -128,7 +136,9 @@ class FuncScan:
         if isinstance(e, ast.Attribute):
             return e.attr in g.set_attrs
         if isinstance(e, ast.BinOp) and isinstance(e.op, (ast.BitOr, ast.BitAnd, ast.Sub, ast.BitXor)):
-            return self.unordered(e.left) or self.unordered(e.right)
+            # set algebra; also on dict views: `a.keys() & b.keys()`, `d.keys() - {..}`, `d.items() | ..` are `set`s
+            return (self.unordered(e.left) or self.unordered(e.right)
+                    or _is_dict_view(e.left) or _is_dict_view(e.right))
         if isinstance(e, ast.IfExp):
             return self.unordered(e.body) or self.unordered(e.orelse)
         if isinstance(e, ast.BoolOp):
@@ -141,6 +151,11 @@ class FuncScan:
             name = _callee(e)
             if isinstance(e.func, ast.Name) and name in ('set', 'frozenset'):
                 return True
+            if isinstance(e.func, ast.Attribute) and isinstance(e.func.value, ast.Name) \
+                    and e.func.value.id in ('set', 'frozenset') and name in SET_METHODS_RET:
+                return True          # set.union(a, b), set.intersection(*xs)
+            if name == 'fromkeys' and e.args and self.unordered(e.args[0]):
+                return True          # dict.fromkeys(<unordered>): a dict in that order
             if isinstance(e.func, ast.Attribute):
                 recv = e.func.value
                 if name in SET_METHODS_RET and self.unordered(recv):
@@ -507,8 +522,8 @@ def _maximal_unordered(fn, sc, nested):
     def rec_inside(e):
         if isinstance(e, ast.BinOp):
             for side in (e.left, e.right):
-                if sc.unordered(side):
-                    rec_inside(side)
+                if sc.unordered(side) or _is_dict_view(side):
+                    rec_inside(side) if sc.unordered(side) else rec_wrap(side.func.value)
                 else:
                     rec_wrap(side)
         elif isinstance(e, (ast.IfExp, ast.BoolOp)):
@@ -614,6 +629,17 @@ def _identity_key_only(call):
     return False
 
 
+def _clear_position(fn, call):
+    """Where in the function the `clear()` sits: 'first-call' when it is a statement of the function body itself and
+    no earlier statement of the body contains any call (so nothing that could register an import, or fail, runs
+    before it); otherwise 'after-<n>-calls' / 'nested'."""
+    for i, st in enumerate(fn.body):
+        if isinstance(st, ast.Expr) and st.value is call:
+            before = sum(1 for prev in fn.body[:i] for x in ast.walk(prev) if isinstance(x, ast.Call))
+            return 'first-call' if before == 0 else 'after-%d-calls' % before
+    return 'nested'
+
+
 def scan_extra(repo):
     """Tables besides the iteration sites:
     * adhoc: literal arguments of `_register_adhoc_import(..)` (python_type_stubs)
@@ -621,7 +647,7 @@ def scan_extra(repo):
       -- `_imported_namespaces.items()` inside `get_imported_namespaces` (which sorts) is the one expected entry
     * ambient: calls whose result depends on the process / machine / clock (os.listdir, time, random, id, hash, ..)
       outside `__hash__`; `id(x)` used purely as a membership key (`id(x) in seen`, `seen.add(id(x))`) is not one
-    * clears: functions that call `<..>.import_tracker.clear()`"""
+    * clears: functions that call `<..>.import_tracker.clear()`, with the position of the call (`_clear_position`)"""
     adhoc, byname, ambient, clears = set(), [], [], []
     for rel in scanned_files(repo):
         tree = _parse(repo, rel)
@@ -642,10 +668,10 @@ def scan_extra(repo):
                                       else '<non-literal:%s>' % _src(a, 40))
                     if name == 'clear' and isinstance(n.func, ast.Attribute) \
                             and _recv_name(n.func.value) == 'import_tracker':
-                        clears.append((rel, q))
+                        clears.append((rel, q, _clear_position(fn, n)))
                     if isinstance(n.func, ast.Attribute):
                         mod = _recv_name(n.func.value)
-                        if (mod, name) in AMBIENT or (mod, '*') in AMBIENT:
+                        if (mod, name) in AMBIENT or (mod, '*') in AMBIENT or ('*', name) in AMBIENT:
                             ambient.append((rel, q, '%s.%s' % (mod, name)))
                     elif isinstance(n.func, ast.Name) and name in AMBIENT_BUILTINS and fn.name != '__hash__':
                         if not (name == 'id' and _identity_key_only(n)):
@@ -696,7 +722,7 @@ def determinism_side_tables(repo):
         'def adhocImportLiterals : List String := %s' % lean_list(lean_str(a) for a in x['adhoc']),
         'def byNameDictIterations : List (String × String × String) := %s' % lean_list(_rowN(a) for a in x['byname']),
         'def ambientSources : List (String × String × String) := %s' % lean_list(_rowN(a) for a in x['ambient']),
-        'def importTrackerClearSites : List (String × String) := %s' % lean_list(_rowN(a) for a in x['clears']),
+        'def importTrackerClearSites : List (String × String × String) := %s' % lean_list(_rowN(a) for a in x['clears']),
     ])
 
 
